@@ -4,9 +4,11 @@ CONSTANTS
   RefKind = 3
   MaxQ = 2
   WithEvidence = FALSE
+  WithEvv = FALSE
   ReuseChecksCB = TRUE
   ReuseChecksCN = FALSE
   SubtractBroken = TRUE
+  EvvSigned = TRUE
 CHECK_DEADLOCK FALSE
 INVARIANT MeaningPreserved
 INVARIANT TargetAcyclic
